@@ -695,3 +695,35 @@ def _nonzero(t, as_tuple=False):
 
 TM["nonzero"] = _nonzero
 TF["nonzero"] = _nonzero
+
+
+def _cumsum(t, dim, **kw):
+    """cumsum along dim: out[..., i, ...] = sum_{k <= i} x[..., k, ...]  (prefix sums as reductions whose length depends on i)."""
+    ctx = cur()
+    d = norm_dim(dim, t.rank)
+    n = t.shape[d]
+    s_ = t.snap()
+    dt = "i" if t.dtype in ("b", "i") else "f"
+    if isinstance(n, int) and n <= ops.UNROLL_LIMIT:
+        def elem(I):
+            r = cast(0, dt)
+            i = I[d]
+            for k in range(n):
+                J = list(I)
+                J[d] = k
+                term = cast(s_(tuple(J)), dt)
+                r = r + (term if isinstance(i, int) and k <= i else (z3.If(zint(i) >= k, term, cast(0, dt)) if not isinstance(i, int) else cast(0, dt)))
+            return r
+        return mk(t.shape, dt, elem, grad=t.requires_grad)
+
+    def body(outer, ks):
+        J = list(outer)
+        J[d] = ks[0]
+        return cast(s_(tuple(J)), dt)
+
+    red = ctx.new_red("sum", (lambda o: ops.simp_add(o[d], 1),), body, t.rank, dt, "cumsum")
+    return mk(t.shape, dt, lambda I: red.app(I), prov=("red", red), grad=t.requires_grad)
+
+
+TM["cumsum"] = _cumsum
+TF["cumsum"] = _cumsum
